@@ -16,7 +16,7 @@ RES=""
 for c in "$@"; do
   OUT=$(cd /verif && VERIF_REPO=$DIR ./check $c 2>&1); RC=$?
   RES="$RES $c=$( [ $RC = 1 ] && echo KILLED || ( [ $RC = 0 ] && echo survived || echo inconclusive ) )"
-  rm -rf /verif/replays/$c
+  rm -rf /verif/.run/alt/replays/$c
 done
 echo "MUT $NAME ($FILE: $EXPR) suite_ok_pkgs=$SUITE ::$RES"
 rm -rf $DIR
